@@ -340,6 +340,10 @@ fn assemble(contents: &StaticSource) -> Result<Air> {
     let parser = lace::AsmParser::new(contents.src())?;
     let mut air = parser.parse()?;
     air.backpatch()?;
+    // Emitting range-checks label offsets, so do it here to report the same errors everywhere
+    for stmt in &air {
+        stmt.emit()?;
+    }
     Ok(air)
 }
 
